@@ -129,3 +129,4 @@ def make_unit():
 
 
 UNIT = make_unit()
+UNIT.allowed_calls = set()     # closed-world check: language() may only call what the unit defines (box_lang, dflt, from_config)
